@@ -5,6 +5,7 @@
 
 import itertools
 import random
+import sys
 
 from cnfgen.formula.cnf import CNF
 from cnfgen.localtypes import non_negative_int
@@ -24,6 +25,22 @@ list assignments.
     return True
 
 
+def sample_variables(n, k):
+    """Sample k distinct variables among 1..n, in increasing order
+
+    `random.sample` refuses a population longer than `sys.maxsize`:
+    beyond that the variables are picked one at a time.
+    """
+    if n <= sys.maxsize:
+        return sorted(random.sample(range(1, n+1), k))
+    if k > n:
+        raise ValueError("Sample larger than population")
+    chosen = set()
+    while len(chosen) < k:
+        chosen.add(random.randint(1, n))
+    return sorted(chosen)
+
+
 def sample_clauses(k, n, m, planted_assignments):
     """Sample m random k-clauses on a set of n variables
 
@@ -36,13 +53,12 @@ sampling, namely we generare all possible clauses and pick at random
 m of them. This approach always succeeds, but is quite slower and
 wasteful for just few samples."""
     sampled = set()
-    variables = range(1,n+1)
     t = 0
     clauses = []
     while len(clauses) < m and t < 10 * m:
         t += 1
 
-        selection = sorted(random.sample(variables, k))
+        selection = sample_variables(n, k)
         cls = [v*random.choice([1, -1]) for v in selection]
         tcls = tuple(cls)
 
